@@ -636,10 +636,9 @@ def _function_name(node: ast.AST) -> List[str]:
     for t in types:
         if isinstance(node, t):
             return [t.__name__]
-    _logger.error(
-        f"Cannot understand nodes of type {type(node)}. Syntax tree: {pformat(node)}"
-    )
-    assert False, (node, type(node))
+    # Any other expression (a display, a comprehension, a formatted string, a lambda...) is not a
+    # reference to a function of a module either.
+    return [type(node).__name__]
 
 
 class InspectFunction(object):
